@@ -30,7 +30,7 @@ def run(chk):
     refused = sum(1 for ln, o in r["lines"] if o["ev"] == "TextRt" and str(o.get("out", "")).startswith("err"))
     corrupt = sum(1 for ln, o in r["lines"] if o["ev"] == "Utf8Frame" and o["dec"] == "Corrupt")
     if refused < 3 or corrupt < 20:
-        raise ToolError("vacuity: refused=%d corrupt=%d" % (refused, corrupt))
+        chk.vacuity("vacuity: refused=%d corrupt=%d" % (refused, corrupt))
     chk.cov["distinct_nontrivial"] = len(set(ln for ln, o in r["lines"]))
     return chk.finish("model_checking", RULE, extra={"texts_refused": refused, "invalid_utf8_frames": corrupt})
 
